@@ -1,0 +1,8 @@
+//go:build !verif
+// +build !verif
+
+package utils
+
+const VerifOn = false
+
+func Verif(point string, args ...interface{}) {}
